@@ -207,7 +207,7 @@ func (g *Generator) generateWithoutSaving(parents []*theTypeInfo, t reflect.Type
 		isNullable = !isRoot
 	}
 
-	if strings.HasSuffix(t.Name(), "Ref") {
+	if t.Kind() == reflect.Struct && strings.HasSuffix(t.Name(), "Ref") {
 		_, a := t.FieldByName("Ref")
 		v, b := t.FieldByName("Value")
 		if a && b {
